@@ -69,6 +69,9 @@ func (reg *Registry[E]) ReadTagsFrom(r io.Reader) (int64, error) {
 		}
 
 		n += n1 + n2
+		if length < 0 {
+			return n, errors.New("negative tag length: " + strconv.Itoa(int(length)))
+		}
 		values := make([]*E, length)
 
 		var id pk.VarInt
